@@ -14,7 +14,7 @@ RULE = ("firmware-valid (T, rate, accel, jerk, accumulator|clear): jerk residues
         "random ambient mpmath precision; non-trivial = T >= 2 and jerk != 0")
 TRUSTED = ["mpmath at 30 digits: the accumulated rounding error of the /6 path stays below 1/2 before round() on the domain (sampled, not proved)"]
 ASSUMPTIONS = ["per-tick |rate| and |accel| <= 2^31-1 for ticks 1..T, 1 <= T < 2^32, accumulator in [0,2^31) or clear"]
-AMBIENT = [("dps", 5), ("dps", 15), ("dps", 30), ("dps", 50), ("prec", 7), ("prec", 200)]
+AMBIENT = [("dps", 5), ("dps", 15), ("dps", 30), ("dps", 50), ("prec", 7), ("prec", 200), ("decimal", 9), ("decimal", 4)]
 
 def generate(rng, tier):
     n = 1200 if tier == "quick" else 90000
@@ -61,7 +61,7 @@ def _dist(c, acc_v, kw):
 def run_impl(c):
     k, v = AMBIENT[c["amb"]]
     kw = c.get("kw", 0)
-    setattr(mpmath.mp, k, v)
+    ebbgen.set_ambient(k, v)
     try:
         for ov in c.get("over", []):
             d = dict(c, **ov)
@@ -69,23 +69,23 @@ def run_impl(c):
                 if c["kind"] == "r": ebbgen.call(ebb_calc.rate_t3, (d["T"], d["rate"], d["accel"], d["jerk"]), kw)
                 else: _dist(d, d["acc"], kw)
             except Exception: pass
-            setattr(mpmath.mp, k, v)
+            ebbgen.set_ambient(k, v)
         if c["kind"] == "r":
             for t0 in c.get("preT", []):
                 ebbgen.call(ebb_calc.rate_t3, (t0, c["rate"], c["accel"], c["jerk"]), kw)
             return {"rate": int(ebbgen.call(ebb_calc.rate_t3, (c["T"], c["rate"], c["accel"], c["jerk"]), kw))}
         for a0 in c.get("pre", []):
-            _dist(c, a0, kw); setattr(mpmath.mp, k, v)
+            _dist(c, a0, kw); ebbgen.set_ambient(k, v)
         p, a = _dist(c, c["acc"], kw)
         out = {"pos": int(p), "acc": int(a)}
         if c["kind"] == "z":
-            setattr(mpmath.mp, k, v)
+            ebbgen.set_ambient(k, v)
             acc = _clear(c) if c["acc"] is None else c["acc"]
             lp, la = ebb_calc.move_dist_lt(c["rate"], c["accel"], c["T"], acc)
             out["lpos"], out["lacc"] = int(lp), int(la)
         return out
     finally:
-        mpmath.mp.dps = 15
+        ebbgen.reset_ambient()
 
 def coq_case(c, r):
     a = (cz(c["T"]), cz(c["rate"]), cz(c["accel"]), cz(c["jerk"]))
